@@ -12,6 +12,7 @@ import itertools
 import os
 import random
 import shutil
+import sys
 import tempfile
 
 from vlib import core, suppview, corpus
@@ -771,7 +772,88 @@ def w_listed_shapes(job):
     return sh.result()
 
 
+# ---------------------------------------------------------------------------
+# baseline from a fresh PROCESS: state kept at module / class level (a memo keyed by literal value, a shared set) survives a new
+# Project, so "a new project in this process" cannot see it; one child process per request answers it first thing
+
+PB_MODULE = ('retries = 1\ntimeout = 1.0\nenabled = True\ncount = 0\nscale = 0.0\noff = False\nname = ""\nraw = b""\nunit = 1j\n\n\n'
+             'class Conf(object):\n    level = 0\n    ratio = 0.0\n\n    def __init__(self):\n        self.flag = False\n        self.size = 1\n'
+             '        self.factor = 1.0\n\n\nconf = Conf()\nfrom undecodable import thing as bad_thing\nvia_bad = bad_thing\n')
+PB_EXPRS = ['pb.retries', 'pb.timeout', 'pb.enabled', 'pb.count', 'pb.scale', 'pb.off', 'pb.name', 'pb.raw', 'pb.unit', 'pb.conf', 'pb.conf.flag',
+            'pb.conf.size', 'pb.conf.factor', 'pb.Conf.level', 'pb.Conf.ratio',
+            # requests that FAIL (the imported module is no valid UTF-8): they fail alike every time, and change nothing for the others
+            'pb.via_bad', 'pb.bad_thing', 'pb.via_bad']
+PB_CHILD = r'''
+import sys, json
+sys.path.insert(0, sys.argv[1])
+from supp.project import Project
+from supp import assistant
+root, expr = sys.argv[2], sys.argv[3]
+src = 'import pb\n' + expr + '.'
+p = Project([root])
+try:
+    with p.check_changes():
+        r = assistant.assist(p, src, (2, len(expr) + 1), root + '/buffer.py')
+    json.dump(sorted(r[1]), sys.stdout)
+except Exception as e:
+    json.dump(['<raises>', type(e).__name__], sys.stdout)
+'''
+
+
+def w_process_baseline(job):
+    import itertools
+    import json
+    import subprocess
+    from supp.project import Project
+    from supp import assistant
+    seed, n_orders = job
+    sh = Shard()
+    rnd = random.Random(seed)
+    root = tempfile.mkdtemp(prefix='c04p_')
+    try:
+        with open(os.path.join(root, 'pb.py'), 'w') as f:
+            f.write(PB_MODULE)
+        with open(os.path.join(root, 'undecodable.py'), 'wb') as f:
+            f.write(b'# caf\xe9 (latin-1, no coding line)\nthing = 1\n')
+        child = os.path.join(root, 'child.py')
+        with open(child, 'w') as f:
+            f.write(PB_CHILD)
+        procs = [(e, subprocess.Popen([sys.executable, child, core.REPO, root, e], stdout=subprocess.PIPE, stderr=subprocess.PIPE,
+                                      env=dict(os.environ, PYTHONDONTWRITEBYTECODE='1'))) for e in sorted(set(PB_EXPRS))]
+        base = {}
+        for e, p in procs:
+            out, err = p.communicate(timeout=120)
+            if p.returncode != 0:
+                raise core.HarnessError('C04 baseline child failed: ' + err.decode('utf-8', 'replace')[-300:])
+            base[e] = json.loads(out)
+
+        def ask(project, expr):
+            src = 'import pb\n' + expr + '.'
+            try:
+                with project.check_changes():
+                    return sorted(assistant.assist(project, src, (2, len(expr) + 1), os.path.join(root, 'buffer.py'))[1])
+            except Exception as e:
+                return ['<raises>', type(e).__name__]
+        for k in range(n_orders):
+            order = list(PB_EXPRS)
+            rnd.shuffle(order)
+            project = Project([root])
+            for step, e in enumerate(order):
+                got = ask(project, e) if k % 2 == 0 else ask(Project([root]), e)
+                if got != base[e]:
+                    diff = sorted(set(got) ^ set(base[e]))[:6]
+                    sh.violation('process-history-dependent-reply:assist', {'kind': 'process-baseline', 'order': order[:step + 1], 'new_project_each': k % 2 == 1},
+                                 '%s. answered first in a fresh process: %d names; here after %s: %d names (differ in %s)' % (e, len(base[e]), order[:step], len(got), diff))
+                    return sh.result()
+            sh.case(order, True, {'process_baseline_order': order[:5]})
+            sh.count('process-baseline-histories')
+    finally:
+        shutil.rmtree(root, ignore_errors=True)
+    return sh.result()
+
+
 def run(run):
+    run.pmap(w_process_baseline, [(core.derive_seed(run.seed, 'c04pb', i), run.pick(6, 40)) for i in range(2)])
     run.pmap(w_listed_shapes, [0, 1, 2, 3])
     run.pmap(w_alias_chains, [(i, core.derive_seed(run.seed, 'c04a', i), run.pick(30, 500)) for i in range(4)])
     n = run.pick(25, 600)
@@ -785,6 +867,9 @@ def replay(case):
     out = []
     if case.get('kind') == 'program':
         probs, _ = check_module(case['src'], suppview.filename_for(case.get('package', False)), random.Random(case.get('oseed', 0)))
+    elif case.get('kind') == 'process-baseline':
+        r = w_process_baseline((0, 4))
+        probs = [(v['signature'], v['detail']) for v in r['violations']]
     elif case.get('kind') == 'listed-shape':
         c = case['case']
         bad = run_listed_shape(tuple(c))
